@@ -58,7 +58,8 @@ def lowerName (n : Name) : Option Name :=
 
 /-- Iterating an `io.StringIO`: lines end at `\n` only.  (The pieces are returned without their
 terminator, and a text ending in `\n` yields a final empty piece: an empty line is skipped by
-`_read`, and no modelled input has continuation lines, so this is unobservable.) -/
+`_read`; when this note was written no modelled input had continuation lines — they are modelled since the
+deepening round, and a trailing empty piece adds nothing to a continuation either.) -/
 def splitNL : List Char → List (List Char)
   | [] => [[]]
   | c :: cs =>
